@@ -520,6 +520,25 @@ impl StoreEnv {
                 let pad = get_u64(op, "pad").unwrap_or(0) as usize;
                 let store = self.store();
                 let mut okc = 0u64;
+                if get_str(op, "kind") == Some("cursor") {
+                    // n non-message frames (provider cursor updates)
+                    for i in 0..n {
+                        let r = ripd::verif_api::append_provider_cursor_updated(
+                            &store,
+                            &tid,
+                            "openresponses".to_string(),
+                            None,
+                            None,
+                            Some(json!({"previous_response_id": format!("resp_f{i}")})),
+                            "set".to_string(),
+                            None,
+                        );
+                        if r.is_ok() {
+                            okc += 1;
+                        }
+                    }
+                    return json!({"ok": okc == n, "ret": {"appended": okc}});
+                }
                 for i in 0..n {
                     let r = store.append_message(
                         &tid,
